@@ -57,3 +57,163 @@ Example C08_example :
   | Err _ => False
   end.
 Proof. vm_compute. split; reflexivity. Qed.
+
+(* ------------------------------------------------------------------------------------------------------
+   Added in build session 4 (statements re-stated from the proof files by harness tooling; each is closed by
+   exact). *)
+From SplipyModel Require Import Proofs.SeamContinuity Proofs.MakePeriodicKnots.
+Open Scope R_scope.
+Theorem C08_seam_derivatives :
+  forall k : nat -> R,
+         sorted k ->
+         forall (q n cont : nat) (T : R),
+         (1 <= n)%nat ->
+         (cont < q)%nat ->
+         (forall i : nat, k (i + n)%nat = k i + T) ->
+         forall c : nat -> R,
+         (forall i : nat, c (i + n)%nat = c i) ->
+         k cont < k (S cont) ->
+         k (S cont) = k q ->
+         k q < k (S q) ->
+         forall r N : nat,
+         (r <= cont)%nat -> (n + cont + 1 <= N)%nat -> Sd k q c true r (k q) N = Sd k q c false r (k (q + n)%nat) N.
+Proof. exact @seam_derivatives. Qed.
+Print Assumptions C08_seam_derivatives.
+
+Theorem C08_seam_derivatives_list :
+  forall K : nat -> R,
+         sorted K ->
+         forall (q n cont : nat) (T : R),
+         (1 <= n)%nat ->
+         (cont < q)%nat ->
+         (forall i : nat, (i + n <= n + cont + q + 1)%nat -> K (i + n)%nat = K i + T) ->
+         forall c : nat -> R,
+         (forall i : nat, c (i + n)%nat = c i) ->
+         K cont < K (S cont) ->
+         K (S cont) = K q ->
+         K q < K (S q) ->
+         forall r : nat,
+         (r <= cont)%nat ->
+         sumf (fun i : nat => c i * Deriv.dB true K r q i (K q)) 0 (n + cont + 1) =
+         sumf (fun i : nat => c i * Deriv.dB false K r q i (K (q + n)%nat)) 0 (n + cont + 1).
+Proof. exact @seam_derivatives_list. Qed.
+Print Assumptions C08_seam_derivatives_list.
+
+Theorem C08_wrap_value :
+  forall (k : nat -> R) (q n : nat) (T : R),
+         (forall i : nat, k (i + n)%nat = k i + T) ->
+         forall c : nat -> R,
+         (forall i : nat, c (i + n)%nat = c i) ->
+         forall (side : bool) (r a N : nat) (t : R),
+         sumf (fun i : nat => c i * Deriv.dB side k r q i (t + T)) (a + n) N =
+         sumf (fun i : nat => c i * Deriv.dB side k r q i t) a N.
+Proof. exact @wrap_value. Qed.
+Print Assumptions C08_wrap_value.
+
+Theorem C08_continuous_at_multiple_knot :
+  forall k : nat -> R,
+         sorted k ->
+         forall a mu : nat,
+         (1 <= mu)%nat ->
+         k a < k (S a) ->
+         k (S a) = k (a + mu)%nat ->
+         k (a + mu)%nat < k (S (a + mu)) ->
+         forall r q i : nat,
+         (mu + r <= q)%nat -> (q <= a)%nat -> Deriv.dB true k r q i (k (S a)) = Deriv.dB false k r q i (k (S a)).
+Proof. exact @dB_continuous_at_multiple_knot. Qed.
+Print Assumptions C08_continuous_at_multiple_knot.
+
+Theorem C08_make_periodic_images :
+  forall (p cont : nat) (s e : R) (mid : list R),
+         (cont + 2 <= p)%nat ->
+         (cont <= length mid)%nat ->
+         forall i : nat,
+         (i + b_nfun (basis_make_periodic {| b_order := p; b_knots := open_knots p s e mid; b_per1 := 0 |} cont) <
+          length (b_knots (basis_make_periodic {| b_order := p; b_knots := open_knots p s e mid; b_per1 := 0 |} cont)))%nat ->
+         kn (b_knots (basis_make_periodic {| b_order := p; b_knots := open_knots p s e mid; b_per1 := 0 |} cont))
+           (i + b_nfun (basis_make_periodic {| b_order := p; b_knots := open_knots p s e mid; b_per1 := 0 |} cont)) =
+         kn (b_knots (basis_make_periodic {| b_order := p; b_knots := open_knots p s e mid; b_per1 := 0 |} cont)) i +
+         (b_end (basis_make_periodic {| b_order := p; b_knots := open_knots p s e mid; b_per1 := 0 |} cont) -
+          b_start (basis_make_periodic {| b_order := p; b_knots := open_knots p s e mid; b_per1 := 0 |} cont)).
+Proof. exact @mp_images. Qed.
+Print Assumptions C08_make_periodic_images.
+
+Theorem C08_make_periodic_sorted :
+  forall (p cont : nat) (s e : R) (mid : list R),
+         (cont + 2 <= p)%nat ->
+         (cont <= length mid)%nat ->
+         sorted (kn (open_knots p s e mid)) ->
+         sorted
+           (kn (b_knots (basis_make_periodic {| b_order := p; b_knots := open_knots p s e mid; b_per1 := 0 |} cont))).
+Proof. exact @mp_sorted. Qed.
+Print Assumptions C08_make_periodic_sorted.
+
+Theorem C08_make_periodic_seam_rows :
+  forall (p cont : nat) (s e : R) (mid : list R),
+         (cont + 2 <= p)%nat ->
+         (cont <= length mid)%nat ->
+         sorted (kn (open_knots p s e mid)) ->
+         s < e ->
+         Forall (fun x : R => s < x < e) mid ->
+         forall r : nat,
+         (r <= cont)%nat ->
+         ref_row true
+           (b_knots (basis_make_periodic {| b_order := p; b_knots := open_knots p s e mid; b_per1 := 0 |} cont)) p
+           (cont + 1) r s =
+         ref_row false
+           (b_knots (basis_make_periodic {| b_order := p; b_knots := open_knots p s e mid; b_per1 := 0 |} cont)) p
+           (cont + 1) r e.
+Proof. exact @mp_seam_rows. Qed.
+Print Assumptions C08_make_periodic_seam_rows.
+
+Theorem C08_open_close_knots :
+  forall (p cont : nat) (k0 : list R),
+         (cont + 2 <= p)%nat ->
+         (2 * p + cont <= length k0)%nat ->
+         (forall i : nat,
+          (i + b_nfun {| b_order := p; b_knots := k0; b_per1 := cont + 1 |} < length k0)%nat ->
+          kn k0 (i + b_nfun {| b_order := p; b_knots := k0; b_per1 := cont + 1 |}) =
+          kn k0 i +
+          (b_end {| b_order := p; b_knots := k0; b_per1 := cont + 1 |} -
+           b_start {| b_order := p; b_knots := k0; b_per1 := cont + 1 |})) ->
+         (forall i : nat,
+          (cont + 1 <= i <= p - 1)%nat -> kn k0 i = b_start {| b_order := p; b_knots := k0; b_per1 := cont + 1 |}) ->
+         b_knots
+           (basis_make_periodic
+              {|
+                b_order := p;
+                b_knots := open_knots_of {| b_order := p; b_knots := k0; b_per1 := cont + 1 |};
+                b_per1 := 0
+              |} cont) = k0.
+Proof. exact @open_close_knots. Qed.
+Print Assumptions C08_open_close_knots.
+
+Theorem C08_close_open_make_periodic :
+  forall (p cont : nat) (s e : R) (mid : list R),
+         (cont + 2 <= p)%nat ->
+         (cont <= length mid)%nat ->
+         basis_make_periodic
+           {|
+             b_order :=
+               b_order (basis_make_periodic {| b_order := p; b_knots := open_knots p s e mid; b_per1 := 0 |} cont);
+             b_knots :=
+               open_knots_of
+                 (basis_make_periodic {| b_order := p; b_knots := open_knots p s e mid; b_per1 := 0 |} cont);
+             b_per1 := 0
+           |} cont = basis_make_periodic {| b_order := p; b_knots := open_knots p s e mid; b_per1 := 0 |} cont.
+Proof. exact @close_open_make_periodic. Qed.
+Print Assumptions C08_close_open_make_periodic.
+
+Theorem C08_split_opens_at_seam :
+  forall (p cont : nat) (s e : R) (mid : list R),
+         (cont + 2 <= p)%nat ->
+         (cont <= length mid)%nat ->
+         sorted (kn (open_knots p s e mid)) ->
+         s < e ->
+         Forall (fun x : R => s < x < e) mid ->
+         let bI := {| b_order := p; b_knots := seam_inserted_knots p cont s e mid; b_per1 := cont + 1 |} in
+         let mu := py_bisect_left (b_knots bI) (hd 0 [s]) in
+         let kk := b_knots (basis_roll bI mu) in firstn (length kk - b_per1 bI) kk = open_knots p s e mid.
+Proof. exact @split_opens_at_seam. Qed.
+Print Assumptions C08_split_opens_at_seam.
+
